@@ -47,11 +47,15 @@ def hash_contraction_b(inputs, output, size_dict):
         for ix in term:
             edges[ix].append(i)
 
-    # then sort edges by each's incidence nodes
-    canonical_edges = sortedtuple(map(sortedtuple, edges.values()))
+    # then sort edges by each's incidence nodes, each carrying its own size
+    # (sizes must follow the edges, not the labels, which are ignored here)
+    canonical_edges = sortedtuple(
+        (sortedtuple(nodes), int(size_dict[ix])) for ix, nodes in edges.items()
+    )
 
+    # the number of tensors matters too: scalars have no edges
     return hashlib.sha1(
-        pickle.dumps((canonical_edges, sortedtuple(size_dict.items())))
+        pickle.dumps((len(inputs), canonical_edges))
     ).hexdigest()
 
 
